@@ -3,6 +3,7 @@ import PytypeModel.Proofs.CodecNode
 import PytypeModel.Proofs.EqHash
 import PytypeModel.Proofs.SortStep
 import PytypeModel.Generated.PytdSchema
+import PytypeModel.Proofs.UndoAliases
 
 /-! # C12 — serialised stubs decode to the same declarations, byte-stably; `==` and `hash` agree
 
@@ -192,5 +193,45 @@ example : StrictWeak (fun a b : Nat => decide (a < b)) :=
   ⟨fun a b h => by simp at h ⊢; omega, fun a b c h1 h2 => by simp at h1 h2 ⊢; omega⟩
 example : sortStable (fun a b : Nat × Nat => decide (a.1 < b.1)) [(2, 0), (1, 0), (2, 1), (1, 1)] =
     [(1, 0), (1, 1), (2, 0), (2, 1)] := by decide
+
+/-! ## `UndoModuleAliasesVisitor` (what happens to LateType names before the bytes are written) -/
+
+/-- a unit without module aliases leaves every name alone — in particular no alias of another unit is ever used
+(the visitor is created per `SerializeAst` call; seeded change c12-m3 shares one instance) -/
+theorem undo_aliases_local (name : Dotted) : undoAlias [] name = name := undoAlias_nil name
+
+/-- the longest proper dotted prefix that is an alias of the unit is replaced by the aliased module's name, and
+everything after it is kept (seeded change c12-m5 keeps only the last component) -/
+theorem undo_aliases_longest_prefix (al : List (Dotted × Dotted)) (name : Dotted) (h : 1 < name.length) :
+    (undoAlias al name = name ∧ ∀ j, 1 ≤ j → j ≤ name.length - 1 → lookupLast al (name.take j) = none) ∨
+    ∃ j m, 1 ≤ j ∧ j ≤ name.length - 1 ∧ lookupLast al (name.take j) = some m ∧
+      (∀ j', j < j' → j' ≤ name.length - 1 → lookupLast al (name.take j') = none) ∧
+      undoAlias al name = m ++ name.drop j := by
+  have hu : undoAlias al name = undoAt al name (name.length - 1) := by
+    unfold undoAlias; rw [if_neg (by omega)]
+  rw [hu]
+  exact undoAt_spec al name (name.length - 1)
+
+/-- "encoding the decoded AST again gives the same bytes" needs the rewriting to be idempotent (the decoded unit
+still carries its aliases).  `_partial`: when no alias name is a prefix of an aliased module's name and no module
+name is a prefix of an alias name. -/
+theorem undo_aliases_idempotent_partial (al : List (Dotted × Dotted)) (hc : noChain al = true) (name : Dotted) :
+    undoAlias al (undoAlias al name) = undoAlias al name := undoAlias_idem_of_noChain hc name
+
+/-- the unguarded statement is false: `import foo.bar as foo` and the late type `foo.Thing`
+(known finding c12-alias-prefix-of-own-module, replayed on the real code by W) -/
+theorem undo_aliases_idempotent_not_full :
+    ¬ ∀ (al : List (Dotted × Dotted)) (name : Dotted), undoAlias al (undoAlias al name) = undoAlias al name := by
+  intro h
+  have := h [(["foo"], ["foo", "bar"])] ["foo", "Thing"]
+  revert this
+  decide
+
+example : undoAlias [(["shapes"], ["gfx", "primitives"]), (["gfx", "colors"], ["gfx", "colors"])]
+    ["shapes", "Outer", "Inner"] = ["gfx", "primitives", "Outer", "Inner"] := by decide
+example : noChain [(["shapes"], ["gfx", "primitives"]), (["np"], ["numpy"])] = true := by decide
+example : noChain [(["foo"], ["foo", "bar"])] = false := by decide
+example : undoAlias [(["foo"], ["foo", "bar"])] ["foo", "Thing"] = ["foo", "bar", "Thing"] ∧
+    undoAlias [(["foo"], ["foo", "bar"])] ["foo", "bar", "Thing"] = ["foo", "bar", "bar", "Thing"] := by decide
 
 end PytypeModel.Props.C12
